@@ -4,7 +4,7 @@ from __future__ import annotations
 from datetime import datetime
 from fractions import Fraction
 
-from vlib import harness, refsensor as rs, siminv
+from vlib import harness, refsensor as rs, refwire as rw, siminv
 from vlib.harness import Acc, run_sync
 from checks.c12 import mix
 
@@ -307,6 +307,93 @@ def prior_job(job):
     return acc
 
 
+class _PreReadFault:
+    """Responder wrapper: the next READ request is answered abnormally (once)."""
+
+    def __init__(self, inner, kind):
+        self.inner, self.kind, self.armed, self.harness_error = inner, kind, True, None
+
+    def respond(self, data):
+        try:
+            return self._respond(data)
+        except Exception as ex:          # a bug in this wrapper must not pass for a library failure
+            self.harness_error = ex
+            raise
+
+    def _respond(self, data):
+        is_read = (data[:2] == b"\xaa\x55" and data[4:6] == b"\x01\x1a") or (data[:2] != b"\xaa\x55" and (data[1] == 3 or (len(data) > 7 and data[7] == 3 and data[2:4] == b"\0\0")))
+        if self.armed and is_read:
+            self.armed = False
+            if self.kind == "silent":
+                return None
+            if self.kind == "refused":
+                return self.inner.exception(data, 2)
+            if self.kind == "empty":       # AA55: a valid 019A frame without payload (the AA55 validator does not look at the length)
+                return rw.aa55_response(b"\x01\x9a", b"") if data[:2] == b"\xaa\x55" else self.inner.exception(data, 4)
+        return self.inner.respond(data)
+
+    def __getattr__(self, name):
+        return getattr(self.inner, name)
+
+
+def check_faulty_preread(acc: Acc, variant, sid, value, prior_word, kind, tcp=False):
+    """One-byte settings need a read before the write.  When that read is refused, unanswered or answered without payload the
+    write may fail - but whatever happens, no register other than the setting's own byte may change, and if write_setting
+    returns normally the setting must read back."""
+    acc.case()
+    acc.nontrivial_counted()
+    inv, sim = build(variant, 0, tcp)
+    setting = inv._settings[sid]
+    tn = rs.type_name(setting)
+    fam = VARIANTS[variant]["family"]
+    case = {"faulty_preread": kind, "variant": variant, "setting": sid, "value": value, "prior_word": prior_word, "tcp": tcp}
+    set_prior(sim, setting, prior_word)
+    get, wlog, snap, space = reg_view(sim, setting)
+    fault = _PreReadFault(siminv.responder_for(inv, sim), kind)
+    siminv.attach_direct(inv, fault)
+    before = snap()
+    ok = True
+    try:
+        run_sync(inv.write_setting(sid, value))
+    except Exception:
+        ok = False
+    if fault.harness_error is not None or fault.armed:
+        raise harness.HarnessError("pre-read fault wrapper: %r (armed=%s)" % (fault.harness_error, fault.armed))
+    after = snap()
+    changed = diff_snap(before, after, space, get)
+    stray = sorted(changed - {setting.offset})
+    key0 = "C17|%s|%s|faulty-preread" % (fam, tn)
+    if stray:
+        return acc.fail(key0 + "|foreign-registers-changed", "pre-read %s: write_setting(%r, %r) changed registers %s" % (kind, sid, value, stray[:6]), case)
+    now = get(setting.offset)
+    other_before = (prior_word & 0x00FF) if tn == "ByteH" else (prior_word >> 8)
+    other_now = (now & 0x00FF) if tn == "ByteH" else (now >> 8)
+    if other_now != other_before:
+        return acc.fail(key0 + "|other-half-changed", "pre-read %s: write_setting(%r, %r) %s and turned the shared register %04x into %04x - the other "
+                        "half was lost" % (kind, sid, value, "returned normally" if ok else "raised", prior_word, now), case)
+    own_now = (now >> 8) if tn == "ByteH" else (now & 0xFF)
+    if ok and own_now != (value & 0xFF):
+        return acc.fail(key0 + "|reported-success-without-effect", "pre-read %s: write_setting(%r, %r) returned normally but the register holds %04x" % (
+            kind, sid, value, now), case)
+    return False
+
+
+def faulty_preread_job(job):
+    variant, = job
+    acc = Acc()
+    inv, _ = build(variant, 0)
+    for sid in settings_of(variant):
+        if inv._settings[sid].size_ != 1:
+            continue
+        for kind in ("empty", "refused", "silent"):
+            for w in (0x007F, 0x7F00, 0xFFFF, 0x1234, 0x8001, 0x0000, 0xA55A):
+                for value in (0, -1, 5, 127, -128):
+                    check_faulty_preread(acc, variant, sid, value, w, kind, tcp=bool(w & 2))
+        if len(acc.samples) < 1:
+            acc.sample({"faulty_preread": "empty", "variant": variant, "setting": sid, "value": -1, "prior_word": 0x007F})
+    return acc
+
+
 def instance_job(job):
     variant, nvals, seed = job
     acc = Acc()
@@ -436,12 +523,16 @@ def run(ctx):
     ctx.shard(prior_job, [(v, ctx.quick) for v in VARIANTS], "one-byte settings: every value of the other half of the shared register (quick) / every prior word (thorough)")
     ctx.exhaustive_parts.append("one-byte settings x all 256 values of the other register half x 4 own-half values + sentinel words" if ctx.quick
                                 else "one-byte settings x all 65,536 prior register words x 5 values")
+    ctx.shard(faulty_preread_job, [(v,) for v in VARIANTS], "one-byte settings whose pre-read is refused / unanswered / answered without payload: no other register (half) may change")
     n = ctx.pick(2400, 60000)
     ctx.shard(hyp_job, [(ctx.seed * 1000 + i, n // 16) for i in range(16)], "hypothesis (variant, setting, value, prior image)")
     ctx.shard(e2e_job, [(v, ctx.seed) for v in VARIANTS], "end-to-end write + read back on the virtual loop (RTU/UDP, Modbus/TCP, AA55)")
 
 
 def replay(ctx, case):
+    if case.get("faulty_preread"):
+        check_faulty_preread(ctx.acc, case["variant"], case["setting"], case["value"], case["prior_word"], case["faulty_preread"], case.get("tcp", False))
+        return
     v = case["value"]
     inv, _ = build(case["variant"], 0)
     tn = rs.type_name(inv._settings[case["setting"]])
